@@ -105,6 +105,16 @@ MASK = (1 << 63) - 1
 # rendering of abstract values as Coq terms
 # ---------------------------------------------------------------------------
 
+def run_cases(*args, **kwargs):
+    '''common.run_case_files, tried once more when a coqc process was killed
+    by a signal (rc < 0: another job on the machine), never when Coq itself
+    reports an error.'''
+    bad, errs = common.run_case_files(*args, **kwargs)
+    if errs and all(re.search(r'rc=-\d+', e) for e in errs):
+        bad, errs = common.run_case_files(*args, **kwargs)
+    return bad, errs
+
+
 def ccell(c):
     origin = clist(cpair(cz(a), cz(b)) for a, b in c['origin'])
     return (f'(mkCell {cstr(c["mat"])} {copt(c["dens"], cstr)} '
@@ -220,15 +230,15 @@ def spelling_violation(res, s, tie):
     return False
 
 
-def tie_norm_exhaustive(res, tier, alphabet, check_fun, label):
-    maxlen = 6 if tier == 'quick' else 7
+def tie_norm_exhaustive(res, tier, alphabet, check_fun, label, shorter=0):
+    maxlen = (6 if tier == 'quick' else 7) - shorter
     tail = maxlen - 2
     suffixes = list(words_upto(tail, alphabet))
     cases, meta = [], []
     short = sum(hash_case(w) for w in words_upto(1, alphabet)) & MASK
     cases.append(cpair(cstr(''), '1%nat', f'(Uint63.of_Z {short}%Z)'))
     meta.append(('', 1))
-    n_strings = 9
+    n_strings = len(alphabet) + 1
     for a in alphabet:
         for b in alphabet:
             prefix = a + b
@@ -241,7 +251,7 @@ def tie_norm_exhaustive(res, tier, alphabet, check_fun, label):
             n_strings += len(suffixes)
     res.count(f'norm:exhaustive-strings-{label}', n_strings)
     res.evaluations += n_strings
-    bad, errs = common.run_case_files(f'c09_bucket{label}', HEADER,
+    bad, errs = run_cases(f'c09_bucket{label}', HEADER,
                                       'string * nat * Uint63.int',
                                       check_fun, cases, chunk=5)
     tie = f'tie:norm-exhaustive-{label}'
@@ -252,7 +262,7 @@ def tie_norm_exhaustive(res, tier, alphabet, check_fun, label):
     for idx in bad[:3]:
         prefix, n = meta[idx]
         words = [prefix + w for w in words_upto(n, alphabet)]
-        sub_bad, _ = common.run_case_files(
+        sub_bad, _ = run_cases(
             'c09_expand', HEADER, 'string * res (string * bool)',
             'check_norm', [norm_case(w) for w in words], chunk=600)
         found = False
@@ -275,7 +285,8 @@ def tie_norm_exhaustive(res, tier, alphabet, check_fun, label):
 
 def tie_norm(res, tier, rng):
     tie_norm_exhaustive(res, tier, ALPHABET, 'check_bucket', 'a')
-    tie_norm_exhaustive(res, tier, ALPHABET_B, 'check_bucket_b', 'b')
+    tie_norm_exhaustive(res, tier, ALPHABET_B, 'check_bucket_b', 'b',
+                        shorter=1 if tier == 'quick' else 0)
 
     # doctests + structured spellings + random strings over a wider alphabet
     strings = [s for s, _ in c09_gen.DOCTESTS]
@@ -298,7 +309,7 @@ def tie_norm(res, tier, rng):
         strings.append(c09_gen.random_token(rng, wide, 9))
     for s in strings:
         res.seen(('norm', s), nontrivial=len(s) > 1)
-    bad, errs = common.run_case_files(
+    bad, errs = run_cases(
         'c09_norm', HEADER, 'string * res (string * bool)', 'check_norm',
         [norm_case(s) for s in strings])
     res.obligation(f'tie:norm-spellings ({len(strings)} doctest, structured '
@@ -376,7 +387,7 @@ def tie_material(res, tier, rng):
         # property: the density spelling, when valid, keeps its value
         if out[0] == 'ok' and out[1][1] is not None and len(toks) > 1:
             spelling_violation(res, toks[1], 'tie:material')
-    bad, errs = common.run_case_files(
+    bad, errs = run_cases(
         'c09_mat', HEADER, 'list string * res (string * option string)',
         'check_parse_material', cases)
     res.obligation(f'tie:material ({len(cases)} material/density pairs: '
@@ -434,7 +445,7 @@ def tie_likebut(res, tier, rng):
             res.count('likebut:' + (out[1] if out[0] == 'err' else 'ok'))
             if out[0] == 'ok' and krho is not None:
                 spelling_violation(res, krho, 'tie:likebut')
-    bad, errs = common.run_case_files(
+    bad, errs = run_cases(
         'c09_like', HEADER,
         'list string * option string * option string * '
         'res (string * option string)', 'check_cell_material', cases)
@@ -531,7 +542,7 @@ def tie_fill(res, tier, rng):
                               {'input': {'cells': cells}}, found_input=True)
     if meta:
         res.sample({'cells': meta[0][0], 'pot_fill': meta[0][1]})
-    bad, errs = common.run_case_files(
+    bad, errs = run_cases(
         'c09_fill', HEADER, 'dict cell * Z * fill_out', 'check_fill', cases,
         chunk=60)
     res.obligation(f'tie:fill ({len(cases)} synthetic dictionaries: final '
@@ -656,7 +667,7 @@ def tie_geomcomp(res, tier, rng, real):
                                                            clines)))
         meta.append((vols, cells, ('ok', lines), deck_text))
         res.count('geomcomp:real-deck')
-    bad, errs = common.run_case_files(
+    bad, errs = run_cases(
         'c09_geomcomp', HEADER,
         'dict vol * dict cell * res (list (string * N * list Z))',
         'check_geomcomp', cases, chunk=40)
@@ -756,7 +767,7 @@ def tie_comp(res, tier, rng, real):
                            cres(out, ccomp)))
         meta.append((cells, out, deck_text))
         res.count('comp:real-deck')
-    bad, errs = common.run_case_files(
+    bad, errs = run_cases(
         'c09_comp', HEADER,
         'list Z * dict cell * res (list (Z * list string))',
         'check_comp_all', cases, chunk=40)
@@ -824,7 +835,7 @@ def tie_pipeline(res, tier, rng, real):
             clist(csig(s) for s in sigs)))
         meta.append(deck_text)
         res.count('pipeline:' + ('lattice' if lats else 'fill-only'))
-    bad, errs = common.run_case_files(
+    bad, errs = run_cases(
         'c09_pipe', HEADER,
         'dict cell * Z * list (Z * list Z) * list cell_sig', 'check_pipeline',
         cases, chunk=25)
